@@ -546,7 +546,11 @@ class Expander:
                 # its entries are replaced depending on the data - the name no longer stands for the value the algebra holds
                 masked = any(isinstance(x, ast.Compare) for x in ast.walk(t.slice)) or \
                     (isinstance(t.slice, ast.Name) and isinstance(env.get(t.slice.id), CmpV))
-                if masked and isinstance(t.value, ast.Name) and isinstance(base, R) and not base.is_zero():
+                if masked and isinstance(t.value, ast.Name) and type(base).__name__ == "M" and getattr(base, "terms", None):
+                    from .ncf import M as _M
+                    env[t.value.id] = _M.atom(f"{t.value.id}<entries where {ast.unparse(t.slice)[:40]} overwritten at line {getattr(t, 'lineno', 0)}>",
+                                              base.rank)
+                elif masked and isinstance(t.value, ast.Name) and isinstance(base, R) and not base.is_zero():
                     # (a distinct symbol, not a poison: the value IS another one wherever the mask holds - a formula rule that reads it
                     # reports the difference instead of ending undecided)
                     env[t.value.id] = R.sym(f"{t.value.id}<entries where {ast.unparse(t.slice)[:40]} overwritten at line {getattr(t, 'lineno', 0)}>")
